@@ -150,7 +150,7 @@ impl<'a> Gen<'a> {
                 // names the pattern (re)binds — explicitly or through a star — are nil-filled when it fails: not used afterwards
                 inner.vars.retain(|(n, _)| !b.iter().any(|(bn, _)| bn == n) && !FIELDS.contains(&n.as_str()));
                 let v = self.of(t, &inner, d - 1);
-                if v.starts_with('{') || v.starts_with('~') || v.starts_with("[...") || v.starts_with('$') { return v; }
+                if v.starts_with('{') || v.starts_with('~') || v.starts_with("[...") || v.starts_with('$') { return self.leaf(t, cx); }
                 // a variable scrutinee would be narrowed by the pattern for the rest of the chain even when the match fails
                 // (recorded type hole; a one-expression block keeps the variable's provenance too): scrutinise a literal instead
                 let scrut = if scrut.chars().all(|c| c.is_alphanumeric() || c == '_' || c == '.' || c == '$' || c == '~') || scrut.starts_with('{') { self.lit(&st) } else { scrut };
@@ -162,7 +162,9 @@ impl<'a> Gen<'a> {
                 let (junk, jt) = self.any(cx, d - 1);
                 let inner = cx.with_flow(Some(jt));
                 let v = self.of(t, &inner, d - 1);
-                if v.starts_with('{') || v.starts_with('~') || v.starts_with("[...") { return v; }
+                // a term that would consume the flowing value instead of replacing it cannot follow the junk: start over in the
+                // original context (never reuse `v`, which was generated for a different flowing value)
+                if v.starts_with('{') || v.starts_with('~') || v.starts_with("[...") { return self.leaf(t, cx); }
                 format!("{} {}", junk, v)
             }
             _ => self.leaf(t, cx),
